@@ -68,6 +68,11 @@ void harness(void)
   in_slen = nondet_size_t();
   __CPROVER_assume(in_plen <= MAX_P);
   __CPROVER_assume(in_slen <= MAX_S);
+#ifdef FIX_SLEN
+  /* long settings: the length is fixed per query (contents stay symbolic), which
+     makes every scan over the setting a concrete-trip-count loop */
+  in_slen = FIX_SLEN;
+#endif
 
   /* phrase: exact fit (NUL is the last byte of the object), arbitrary non-NUL bytes */
   for (size_t i = 0; i < MAX_P; i++) { in_phrase[i] = nondet_char(); __CPROVER_assume(in_phrase[i] != 0); }
@@ -86,6 +91,12 @@ void harness(void)
   for (size_t j = 0; j < PLEN; j++) __CPROVER_assume(in_setting[off + j] == PREFIX_STR[j]);
   for (size_t j = 0; j < MAX_S; j++)
     if (j < in_slen) __CPROVER_assume(okchar((unsigned char)in_setting[off + PLEN + j]));
+#ifdef LONG_FILL
+  /* long settings: all but the last two tail characters are the constant 'a' (what
+     matters at these lengths is the length arithmetic, not the salt's content);
+     the str* scans then fold to constants */
+  for (size_t j = 0; j + 2 < MAX_S; j++) if (j + 2 < in_slen) in_setting[off + PLEN + j] = 'a';
+#endif
   __CPROVER_assume(in_setting[off + set_size] == 0);
   const char *setting = in_setting + off;
 #ifdef SETTING_PRECOND
